@@ -4,6 +4,8 @@ use crate::util::*;
 use compute::distributions::*;
 use compute::linalg::{Matrix, Vector};
 use std::f64::consts::PI;
+#[path = "mvn_covs.rs"]
+mod mvn_covs;
 
 /// A distribution with its parameters (mirrors `Inductive dist` of Model/Dists.v).
 #[derive(Clone, Copy, Debug)]
@@ -609,7 +611,37 @@ pub fn gen(tier: &str, seed: u64, outdir: &str) {
             cs.push(app("CMvnLnPdf", args(&t, e)), &format!("{}/ln_pdf", tag), kind == 0 && n >= 2 && j > 0);
         }
     }
-    cs.write(outdir, 400, "13 univariate laws on the property's parameter grids (shape <1, =1, >1; dof 1..200; rates 1e-3..1e3; binomial n <= 1000; locations to +-1e3) plus random parameters, odd parameters (NaN, inf, degenerate) and invalid parameters (constructor panics); pdf, ln_pdf, (Normal) cdf at points across the support, on its boundary, outside it, in the far tails and at special values (+-0, +-inf, NaN, subnormal, 1e300); pmf at counts inside, at the edges of and outside the support (negative, too large, i32::MAX); mean and var of every parameter set; every case carries the libm calls the implementation made; multivariate normal of dimension 1..6, 8, 9, 12 on random SPD covariances (cached inverse and determinant recomputed with Matrix::inv / Matrix::det and passed to the model), plus covariances with a non-positive diagonal entry, non-symmetric ones and points of the wrong length (panics), NaN/inf coordinates; non-trivial = point strictly inside the support and off 0/1, a moment, or an MVN point off the mean in dimension >= 2; distinct by hash of the case term");
+    // ---------- multivariate normal END TO END: MVN::new (Cholesky, inverse, determinant: computed by the models of C01 / C11 on the Coq
+    // side, nothing recorded but libm) followed by pdf / ln_pdf.  Own generator state: the cases above do not move.
+    {
+        let mut r = Rng::new(seed ^ 0x2C02_E2E);
+        let dims: Vec<usize> = if thorough { (1..=12).collect() } else { (1..=6).collect() };
+        let reps = if thorough { 5 } else { 2 };
+        // the symmetric positive definite kinds (0..=5 and 16) are drawn twice as often as the others
+        let kinds: Vec<usize> = (0..mvn_covs::KINDS + 2).chain((0..=5).chain(16..17)).collect();
+        for rep in 0..reps { for &n in &dims { for &kind in &kinds {
+            // kinds KINDS, KINDS+1: a valid covariance with a mean / a point of the wrong length
+            let cv = mvn_covs::covariance(&mut r, n, if kind >= mvn_covs::KINDS { 0 } else { kind });
+            let nmu = if kind == mvn_covs::KINDS { if r.coin(0.5) { n + 1 } else { n - 1 } } else { n };
+            let mu: Vec<f64> = (0..nmu).map(|_| if rep % 2 == 0 { r.uniform(-1.0, 1.0) } else { r.uniform(-1e3, 1e3) }).collect();
+            let tag = if kind == mvn_covs::KINDS { "rejected/mean-of-wrong-length" } else if kind == mvn_covs::KINDS + 1 { "rejected/point-of-wrong-length" } else { cv.tag };
+            for j in 0..3 {
+                let sd = |i: usize| if i < cv.rows && i < cv.cols { cv.data[i * cv.cols + i].abs().sqrt() } else { 1.0 };
+                let mut x: Vec<f64> = (0..n).map(|i| mu.get(i).copied().unwrap_or(0.0) + if j == 0 { 0.0 } else { r.uniform(-3.0, 3.0) * sd(i) }).collect();
+                if kind == mvn_covs::KINDS + 1 { if j == 1 || n == 1 { x.push(0.5); } else { x.pop(); } }
+                if j == 2 && (rep + n + kind) % 9 == 0 { x[0] = *r.pick(&[f64::NAN, f64::INFINITY, 1e300, -0.0]); }
+                let args = |t: &libm::Table, e: Tm| vec![libm_table(t), Tm::Nat(cv.rows as u64), Tm::Nat(cv.cols as u64), fl(&cv.data), fl(&mu), fl(&x), e];
+                let build = || MVN::new(Vector::new(mu.clone()), Matrix::new(cv.data.clone(), cv.rows as i32, cv.cols as i32));
+                let nontrivial = cv.spd && kind < mvn_covs::KINDS && n >= 2 && j > 0;
+                let (t, e) = one(|| { let m = build(); (&m).pdf(&x[..]) });
+                cs.push(app("CMvnPdfE", args(&t, e)), &format!("mvn-end-to-end/{}/pdf", tag), nontrivial);
+                // `(2. * PI).ln()` is folded at compile time: libm's own answer is added to the recorded table
+                let (t, e) = one(|| { std::hint::black_box(std::hint::black_box(2.0 * PI).ln()); let m = build(); (&m).ln_pdf(&x[..]) });
+                cs.push(app("CMvnLnPdfE", args(&t, e)), &format!("mvn-end-to-end/{}/ln_pdf", tag), nontrivial);
+            }
+        } } }
+    }
+    cs.write(outdir, 400, "13 univariate laws on the property's parameter grids (shape <1, =1, >1; dof 1..200; rates 1e-3..1e3; binomial n <= 1000; locations to +-1e3) plus random parameters, odd parameters (NaN, inf, degenerate) and invalid parameters (constructor panics); pdf, ln_pdf, (Normal) cdf at points across the support, on its boundary, outside it, in the far tails and at special values (+-0, +-inf, NaN, subnormal, 1e300); pmf at counts inside, at the edges of and outside the support (negative, too large, i32::MAX); mean and var of every parameter set; every case carries the libm calls the implementation made; multivariate normal of dimension 1..6, 8, 9, 12 on random SPD covariances (cached inverse and determinant recomputed with Matrix::inv / Matrix::det and passed to the model), plus covariances with a non-positive diagonal entry, non-symmetric ones and points of the wrong length (panics), NaN/inf coordinates; multivariate normal END TO END (MVN::new + pdf / ln_pdf, the Cholesky factor, inverse and determinant computed by the models of C01 / C11, nothing recorded but libm): dimensions 1..6 (thorough: 1..12), random / diagonal / small-integer SPD covariances, ill-conditioned ones (badly scaled, Hilbert, nearly singular, equicorrelated), mirrored entries 1..3 ulp apart and asymmetries at tiny / huge scale (relative tolerance of is_symmetric), and rejected inputs (non-positive diagonal, not symmetric, indefinite with positive diagonal, singular positive semi-definite, NaN / inf entry, not square, zero matrix, mean or point of the wrong length); non-trivial = point strictly inside the support and off 0/1, a moment, or an MVN point off the mean in dimension >= 2; distinct by hash of the case term");
 }
 
 impl D {
